@@ -299,7 +299,9 @@ CLAIMED = {
              "gasLimit x price (integer floor arithmetic in wei/unibi), conservation of unibi among all involved accounts and the fee "
              "collector for every tx (accepted, rejected, failing, reverting, multi-message), a failing tx changes only the fee and the "
              "nonce, collector gain equals the signer's payment. The implementation's total supply is observed constant by the "
-             "correspondence run.",
+             "correspondence run. A genuine defect found by the evmsupply run was repaired (fix: commit 0c98db1: unibi attached as funds to "
+             "a Wasm execute on a contract that keeps them was minted a second time, to the account named by the last 20 bytes of the "
+             "contract's 32-byte address); T1 fact: SyncStateDBWithAccount returns early for addresses without an EVM counterpart.",
         note="The EVM run is a parameter of the model that moves value between accounts; for transactions that undo a frame containing a "
              "Nibiru precompile call the REAL StateDB does not conserve (known finding C05-undone-precompile-frame, same root cause as the "
              "C04 findings): found by the evmsupply run (generated programs with value transfers, self-destructs and FunToken "
